@@ -267,7 +267,7 @@ class Normaliser:
 
     ALGOS = ("std::iota", "std::copy", "std::copy_n", "std::fill", "std::fill_n", "std::partial_sum", "std::swap")
 
-    def __init__(self, findex, keep=(), max_depth=2, inline=True, else_of_return=()):
+    def __init__(self, findex, keep=(), max_depth=2, inline=True, else_of_return=(), continue_guards=True):
         """keep: function names (regular expressions, full match) that are never inlined: the vocabulary the rules of the check
         interpret by name (contract accessors, render functions, helpers that are anchors of their own rules)"""
         self.findex = findex
@@ -277,6 +277,8 @@ class Normaliser:
         # functions (regex on the full name) in which `if(c) { A; return; } B;` is rewritten to `if(c) { A; return; } else { B }`
         self.else_of_return = re.compile("|".join("(?:%s)" % k for k in else_of_return) or r"(?!x)x")
         self._eor = False
+        # `if(c) continue; rest` directly in a loop body is read as `if(!c) { rest }`
+        self.continue_guards = continue_guards
         self.state = {}       # id(fn) -> "busy" | "done"
         self.log = {}         # fn.full -> [text]
         self._orig = {}       # id(fn) -> list of original nodes
@@ -298,6 +300,7 @@ class Normaliser:
             self._orig[id(fn)] = list(fn.nodes())
             saved = self._eor
             self._eor = bool(self.else_of_return.search(fn.full))
+            self._simplify_conds(fn.body)
             self._stmt_list_rewrite(fn, fn.body, depth)
             self._eor = saved
         self.state[id(fn)] = "done"
@@ -375,6 +378,7 @@ class Normaliser:
             if len(r) != 1 or r[0] is not s:
                 holder[key] = self._mk("Block", s.get("l"), s=r)
         if k == "Block":
+            self._pointer_whiles(fn, node)
             out = []
             for s in node.get("s", []):
                 out.extend(self._rewrite_stmt(fn, s, depth))
@@ -392,6 +396,10 @@ class Normaliser:
             slot(node, "else")
         elif k in ("For", "While", "Do", "ForRange", "OMP", "Switch"):
             slot(node, "body")
+            if self.continue_guards and k in ("For", "While", "Do", "ForRange"):
+                self._continue_guards(fn, node.get("body"))
+            if k == "For" and isinstance(node.get("inc"), dict):
+                node["inc"] = self._compound_inc(fn, node["inc"])
         elif k in ("Case", "Default"):
             inner = node.get("s")
             if isinstance(inner, list):
@@ -407,11 +415,293 @@ class Normaliser:
             for c in children(node):
                 self._stmt_list_rewrite(fn, c, depth)
 
+    # ---------------------------------------------------------------------------------------------
+    # pointer-range loops:  for(T* p = B; p != B + n; ++p) ... p[c] ... *p ...   ==   for(k = 0; k < n; ++k) ... B[k + c] ... B[k] ...
+    # ---------------------------------------------------------------------------------------------
+    def _single_assigned(self, fn):
+        key = id(fn)
+        if not hasattr(self, "_sa"):
+            self._sa = {}
+        if key not in self._sa:
+            muts = set()
+            decls = {}
+            for n in fn.nodes():
+                k = n.get("k")
+                if k == "Var":
+                    decls[n["d"]] = n
+                tgt = None
+                if k == "Assign":
+                    tgt = strip(n["lhs"])
+                elif k == "Un" and n.get("op") in ("++", "--"):
+                    tgt = strip(n["e"])
+                elif k == "Un" and n.get("op") == "&":
+                    tgt = strip(n["e"])          # address taken: may change behind our back
+                elif k == "OpCall" and n.get("op") in ("++", "--", "=", "+=", "-=") and n.get("a"):
+                    tgt = strip(n["a"][0])
+                if tgt is not None and tgt.get("k") == "Ref":
+                    muts.add(tgt.get("d"))
+            self._sa[key] = (decls, muts)
+        return self._sa[key]
+
+    def _resolve(self, fn, n, depth=0):
+        """follow single-assignment, non-reference locals to their initialisers"""
+        n = strip(n)
+        decls, muts = self._single_assigned(fn)
+        while n is not None and depth < 5 and n.get("k") == "Ref" and n.get("dk") == "local":
+            v = decls.get(n.get("d"))
+            if v is None or v.get("init") is None or n.get("d") in muts or v.get("ref"):
+                break
+            n = strip(v["init"])
+            depth += 1
+        return n
+
+    def _rpos(self, fn, n):
+        """_pos with single-assignment pointer locals resolved: `Index* const b = v.data(); Index* const e = b + n;`"""
+        p = self._pos(fn, n)
+        for _ in range(4):
+            if p is None or p[0] != "ptr":
+                return p
+            b = strip(p[1])
+            r = self._resolve(fn, b)
+            if r is b or r is None:
+                return p
+            q = self._pos(fn, r)
+            if q is None or q[0] not in ("ptr", "vec"):
+                return p
+            off = p[2]
+            if q[2] is not None:
+                off = q[2] if off is None else self._mk("Bin", n.get("l"), op="+", lhs=q[2], rhs=off, t=off.get("t"))
+            p = (q[0], q[1], off, q[3])
+        return p
+
+    def _compound(self, fn, s):
+        """`x = x + y` / `x = y + x` / `x = x * y` / `x = x - y` on a side-effect free integral lvalue  ->  `x += y` ... (one spelling for the rules)"""
+        e = strip(s)
+        if e is None or e.get("k") != "Assign" or e.get("op") != "=":
+            return s
+        r = strip(e["rhs"])
+        if r is None or r.get("k") != "Bin" or r.get("op") not in ("+", "-", "*"):
+            return s
+        lhs = strip(e["lhs"])
+        if any(x.get("k") in ("Call", "MCall", "Construct", "TempObj", "Assign", "Lambda") or (x.get("k") == "Un" and x.get("op") in ("++", "--"))
+               or (x.get("k") == "OpCall" and x.get("op") not in ("[]", "*", "->")) for x in walk(lhs)):
+            return s
+        ty = re.sub(r"\bconst\b|&", "", fn.ntype(lhs) or "").strip()
+        if not (ty in ("FEAT::Index", "unsigned long", "unsigned int", "int", "long", "std::size_t", "unsigned long long") or ty.endswith("value_type") or ty.endswith("Index")):
+            return s
+        lt = render(lhs)
+        other = None
+        if render(strip(r["lhs"])) == lt:
+            other = r["rhs"]
+        elif r["op"] in ("+", "*") and render(strip(r["rhs"])) == lt:
+            other = r["lhs"]
+        if other is None or any(x.get("k") in ("Assign",) or (x.get("k") == "Un" and x.get("op") in ("++", "--")) for x in walk(other)):
+            return s
+        n = dict(e)
+        n["op"] = r["op"] + "="
+        n["rhs"] = other
+        n["i"] = self._nid()
+        self.note(fn, "`x = x %s y` at line %s read as `x %s= y`" % (r["op"], e.get("l"), r["op"]))
+        return n
+
+    def _compound_inc(self, fn, inc):
+        e = strip(inc)
+        if e is not None and e.get("k") == "Bin" and e.get("op") == ",":
+            n = dict(e)
+            n["lhs"], n["rhs"] = self._compound_inc(fn, e["lhs"]), self._compound_inc(fn, e["rhs"])
+            return n
+        return self._compound(fn, inc)
+
+    def _simplify_conds(self, node):
+        """!(a < b) -> a >= b, !!a -> a   in the conditions of if / while / for / ?: below node (exact for the integer / pointer comparisons of index code)"""
+        for x in walk(node, prune=lambda y: y.get("k") == "Lambda"):
+            for key in ("c",):
+                c = x.get(key)
+                if isinstance(c, dict) and x.get("k") in ("If", "While", "Do", "For", "Cond"):
+                    x[key] = self._simp(c)
+
+    def _simp(self, c):
+        c0 = strip(c)
+        if c0 is None:
+            return c
+        if c0.get("k") == "Un" and c0.get("op") == "!":
+            inner = strip(self._simp(c0["e"]))
+            flip = {"==": "!=", "!=": "==", "<": ">=", ">=": "<", ">": "<=", "<=": ">"}
+            if (inner.get("k") == "Bin" and inner.get("op") in flip) or (inner.get("k") == "OpCall" and inner.get("op") in ("==", "!=") and len(inner.get("a", [])) == 2):
+                # (for iterators `!(a == b)` and `a != b` are the same test by the iterator requirements)
+                n = dict(inner)
+                n["op"] = flip[inner["op"]]
+                n["i"] = self._nid()
+                return n
+            if inner.get("k") == "Un" and inner.get("op") == "!":
+                return inner["e"]
+            if inner is not strip(c0["e"]):
+                n = dict(c0)
+                n["e"] = inner
+                return n
+            return c
+        if c0.get("k") == "Bin" and c0.get("op") in ("&&", "||"):
+            l, r = self._simp(c0["lhs"]), self._simp(c0["rhs"])
+            if l is not c0["lhs"] or r is not c0["rhs"]:
+                n = dict(c0)
+                n["lhs"], n["rhs"] = l, r
+                return n
+        return c
+
+    def _negate(self, c):
+        c0 = strip(c)
+        flip = {"==": "!=", "!=": "==", "<": ">=", ">=": "<", ">": "<=", "<=": ">"}
+        if c0.get("k") == "Bin" and c0.get("op") in flip:
+            n = dict(c0)
+            n["op"] = flip[c0["op"]]
+            n["i"] = self._nid()
+            return n
+        if c0.get("k") == "Un" and c0.get("op") == "!":
+            return c0["e"]
+        return self._mk("Un", c0.get("l"), op="!", e=c0, t=c0.get("t"))
+
+    def _continue_guards(self, fn, body):
+        """loop body `{ A; if(c) continue; B }`  ->  `{ A; if(!c) { B } }`   (exact: `continue` skips exactly the rest of the body)"""
+        if body is None or body.get("k") != "Block":
+            return
+        lst = body.get("s", [])
+        for i, s in enumerate(lst):
+            if s.get("k") != "If" or s.get("else") is not None or s.get("constexpr"):
+                continue
+            th = s.get("then")
+            while th is not None and th.get("k") == "Block" and len(th.get("s", [])) == 1:
+                th = th["s"][0]
+            if th is None or th.get("k") != "Continue":
+                continue
+            rest = lst[i + 1:]
+            if not rest:
+                body["s"] = lst[:i]
+                return
+            # a `while(c){...; ++i;}` loop whose trailing increment would be skipped by continue is not touched (the increment is part of `rest`: fine, it moves along)
+            inner = self._mk("Block", rest[0].get("l"), s=rest)
+            self._continue_guards(fn, inner)
+            g = self._mk("If", s.get("l"), c=self._negate(s.get("c")), then=inner)
+            body["s"] = lst[:i] + [g]
+            self.note(fn, "`if(c) continue;` guard at line %s read as the nested if it is" % s.get("l"))
+            return
+
+    def _pointer_whiles(self, fn, block):
+        """`T* p = B; while(p != E) { ...; ++p; }` (p used nowhere else in the block) -> `for(T* p = B; p != E; ++p) { ... }` in the statement list"""
+        from ikinds import _is_incdec
+        lst = block.get("s", [])
+        for i, s in enumerate(lst):
+            if s.get("k") != "While":
+                continue
+            c = strip(s.get("c"))
+            body = s.get("body")
+            if c is None or c.get("k") != "Bin" or c.get("op") not in ("!=", "<") or body is None or body.get("k") != "Block" or not body.get("s"):
+                continue
+            l = strip(c["lhs"])
+            if l.get("k") != "Ref" or l.get("dk") != "local" or not self._is_pointer(fn, l):
+                continue
+            d = l["d"]
+            t = _is_incdec(body["s"][-1])
+            if not t or t[0].get("k") != "Ref" or t[0].get("d") != d or t[1] != 1:
+                continue
+            if any(x.get("k") == "Continue" for x in walk(body, prune=lambda y: y.get("k") in ("For", "While", "Do", "ForRange", "Lambda"))):
+                continue
+            js = [j for j in range(i) if lst[j].get("k") == "Decl" and len(lst[j].get("vars", [])) == 1 and lst[j]["vars"][0].get("d") == d and lst[j]["vars"][0].get("init") is not None]
+            if len(js) != 1:
+                continue
+            j = js[0]
+            if any(mentions(x, d) for x in lst[j + 1:i] + lst[i + 1:]):
+                continue
+            f = self._mk("For", s.get("l"), init=lst[j], c=s.get("c"), inc=body["s"][-1], body=self._mk("Block", body.get("l"), s=body["s"][:-1]))
+            block["s"] = lst[:j] + lst[j + 1:i] + [f] + lst[i + 1:]
+            self.note(fn, "pointer while-loop at line %s read as the for loop it is" % s.get("l"))
+            return self._pointer_whiles(fn, block)
+
+    def _pointer_loop(self, fn, f):
+        """For node over a pointer range -> equivalent index loop (new For node) or None"""
+        init, c, inc, body = strip(f.get("init")), strip(f.get("c")), strip(f.get("inc")), f.get("body")
+        if init is None or c is None or inc is None or body is None or init.get("k") != "Decl" or len(init.get("vars", [])) != 1:
+            return None
+        pv = init["vars"][0]
+        if not re.sub(r"\bconst\b", "", fn.type(pv.get("t")) or "").strip().endswith("*") or pv.get("init") is None:
+            return None
+        if c.get("k") != "Bin" or c.get("op") not in ("!=", "<") or strip(c["lhs"]).get("k") != "Ref" or strip(c["lhs"]).get("d") != pv["d"]:
+            return None
+        from ikinds import _is_incdec, _subscript
+        t = _is_incdec(inc)
+        if not t or t[0].get("k") != "Ref" or t[0].get("d") != pv["d"] or t[1] != 1:
+            return None
+        line = f.get("l")
+        T = self._index_type(fn)
+        first, last = self._rpos(fn, pv["init"]), self._rpos(fn, c["rhs"])
+        if first is None or last is None or first[0] not in ("ptr", "vec") or last[0] not in ("ptr", "vec", "vecend"):
+            return None
+        if render(strip(first[1])) != render(strip(last[1])):
+            return None
+        if last[0] == "vecend":
+            hi = self._mk("MCall", line, n="size", callee="%s::size" % first[3], cfull="%s::size" % first[3], ccls=first[3], cconst=True, pn=[], pt=[],
+                          obj=self._clone(first[1]), a=[], t=T)
+            if last[2] is not None:
+                hi = self._mk("Bin", line, op="+", lhs=hi, rhs=self._clone(last[2]), t=T)
+        elif last[2] is None:
+            return None
+        else:
+            hi = self._clone(last[2])
+        cnt = hi if first[2] is None else self._mk("Bin", line, op="-", lhs=hi, rhs=self._clone(first[2]), t=T)
+        # every use of p in the body must be p[c] or *p; p is not modified there
+        uses = [x for x in walk(body) if x.get("k") == "Ref" and x.get("d") == pv["d"]]
+        ok_uses = set()
+        for x in walk(body):
+            if x.get("k") == "Cast":
+                continue
+            sub = _subscript(x)
+            if sub is not None and sub[0].get("k") == "Ref" and sub[0].get("d") == pv["d"] and x.get("k") in ("Index", "OpCall"):
+                ok_uses.add(id(sub[0]))
+            if x.get("k") == "Un" and x.get("op") == "*" and strip(x["e"]).get("k") == "Ref" and strip(x["e"]).get("d") == pv["d"]:
+                ok_uses.add(id(strip(x["e"])))
+            if x.get("k") == "Un" and x.get("op") in ("++", "--", "&") and strip(x["e"]).get("k") == "Ref" and strip(x["e"]).get("d") == pv["d"]:
+                return None
+            if x.get("k") == "Assign" and strip(x["lhs"]).get("k") == "Ref" and strip(x["lhs"]).get("d") == pv["d"]:
+                return None
+        if any(id(u) not in ok_uses for u in uses):
+            return None
+        var = {"k": "Var", "i": self._nid(), "l": line, "n": "_k", "d": _fresh_decl(), "t": T, "init": self._mk("Int", line, v="0", t=T), "synthetic": True}
+
+        def rewrite(n):
+            """replace p[c] / *p below n (in place in the parents' fields)"""
+            if not isinstance(n, dict):
+                return n
+            if n.get("k") in ("Index", "OpCall") and n.get("k") != "Cast":
+                sub = _subscript(n)
+                if sub is not None and sub[0].get("k") == "Ref" and sub[0].get("d") == pv["d"]:
+                    ix = rewrite(sub[1])
+                    c0 = strip(ix)
+                    if c0.get("k") == "Int" and str(c0.get("v")) == "0":
+                        idx = self._ref(var, line)
+                    else:
+                        idx = self._mk("Bin", line, op="+", lhs=self._ref(var, line), rhs=ix, t=T)
+                    return self._elem(fn, first, idx, line, T)
+            if n.get("k") == "Un" and n.get("op") == "*" and strip(n["e"]).get("k") == "Ref" and strip(n["e"]).get("d") == pv["d"]:
+                return self._elem(fn, first, self._ref(var, line), line, T)
+            for key, val in list(n.items()):
+                if isinstance(val, dict) and "k" in val:
+                    n[key] = rewrite(val)
+                elif isinstance(val, list):
+                    n[key] = [rewrite(x) if isinstance(x, dict) and "k" in x else x for x in val]
+            return n
+        nbody = rewrite(body)
+        self.note(fn, "pointer-range loop at line %s read as the index loop it is" % line)
+        return self._mk("For", line, init=self._mk("Decl", line, vars=[var]), c=self._mk("Bin", line, op="<", lhs=self._ref(var, line), rhs=cnt, t=None),
+                        inc=self._mk("Un", line, op="++", e=self._ref(var, line), t=T), body=nbody, synthetic=True)
+
     def _rewrite_stmt(self, fn, s, depth):
         """-> list of statements replacing s"""
         if not isinstance(s, dict):
             return [s]
         k = s.get("k")
+        if k == "For":
+            pl = self._pointer_loop(fn, s)
+            if pl is not None:
+                s = pl
         if k in ("Block", "If", "For", "While", "Do", "ForRange", "Switch", "Case", "Default", "OMP", "Try"):
             if k == "If" and self.inline:
                 pre = self._inline_in_cond(fn, s, depth)
@@ -420,6 +710,7 @@ class Normaliser:
                     return pre + [s]
             self._stmt_list_rewrite(fn, s, depth)
             return [s]
+        s = self._compound(fn, s)
         r = self._desugar(fn, s)
         if r is not None:
             out = []
@@ -447,7 +738,7 @@ class Normaliser:
         return n
 
     def _is_pointer(self, fn, n):
-        ty = (fn.ntype(n) or "").replace(" const", "").strip()
+        ty = re.sub(r"\bconst\b", "", fn.ntype(n) or "").strip()
         return ty.endswith("*")
 
     def _pos(self, fn, n):
@@ -462,13 +753,17 @@ class Normaliser:
             return ("vecend", n.get("obj"), None, n.get("ccls"))
         if k == "MCall" and n.get("n") in ("image_begin", "image_end") and len(n.get("a", [])) == 1:
             return ("adj", n, None, n.get("ccls"))
-        if (k == "Bin" and n.get("op") == "+") or (k in ("OpCall", "Call") and (n.get("op") == "+" or (n.get("callee") or "").endswith("operator+")) and len(n.get("a", [])) == 2):
+        is_plus = (k == "Bin" and n.get("op") == "+") or (k in ("OpCall", "Call") and (n.get("op") == "+" or (n.get("callee") or "").endswith("operator+")) and len(n.get("a", [])) == 2)
+        is_minus = (k == "Bin" and n.get("op") == "-") or (k in ("OpCall", "Call") and (n.get("op") == "-" or (n.get("callee") or "").endswith("operator-")) and len(n.get("a", [])) == 2)
+        if is_plus or is_minus:
             ops = (n["lhs"], n["rhs"]) if k == "Bin" else (n["a"][0], n["a"][1])
-            for a, b in (ops, ops[::-1]):
+            for a, b in ((ops, ops[::-1]) if is_plus else (ops,)):
                 p = self._pos(fn, a)
-                if p is not None and p[0] in ("vec", "ptr"):
+                if p is not None and p[0] in ("vec", "ptr", "vecend") and self._pos(fn, b) is None:
                     off = strip(b)
-                    if p[2] is not None:
+                    if is_minus:
+                        off = self._mk("Bin", n.get("l"), op="-", lhs=(p[2] if p[2] is not None else self._mk("Int", n.get("l"), v="0", t=off.get("t"))), rhs=off, t=off.get("t"))
+                    elif p[2] is not None:
                         off = self._mk("Bin", n.get("l"), op="+", lhs=p[2], rhs=off, t=off.get("t"))
                     return (p[0], p[1], off, p[3])
             return None
@@ -486,21 +781,24 @@ class Normaliser:
     def _count(self, fn, first, last, line, T):
         """number of elements of [first, last) as an expression node, or None"""
         f, l = self._pos(fn, first), self._pos(fn, last)
-        if f is None or l is None or f[0] == "adj":
+        if f is None or l is None or f[0] in ("adj", "vecend") or l[0] == "adj":
+            return None
+        if render(strip(f[1])) != render(strip(l[1])):
             return None
         if l[0] == "vecend":
-            if f[0] != "vec" or render(strip(f[1])) != render(strip(l[1])):
+            if f[0] != "vec":
                 return None
-            size = self._mk("MCall", line, n="size", callee="%s::size" % f[3], cfull="%s::size" % f[3], ccls=f[3], cconst=True, pn=[], pt=[],
-                            obj=self._clone(f[1]), a=[], t=T)
-            if f[2] is None:
-                return size
-            return self._mk("Bin", line, op="-", lhs=size, rhs=self._clone(f[2]), t=T)
-        if l[0] != f[0] or render(strip(f[1])) != render(strip(l[1])) or l[2] is None:
-            return None
+            hi = self._mk("MCall", line, n="size", callee="%s::size" % f[3], cfull="%s::size" % f[3], ccls=f[3], cconst=True, pn=[], pt=[],
+                          obj=self._clone(f[1]), a=[], t=T)
+            if l[2] is not None:
+                hi = self._mk("Bin", line, op="+", lhs=hi, rhs=self._clone(l[2]), t=T)
+        else:
+            if l[0] != f[0] or l[2] is None:
+                return None
+            hi = self._clone(l[2])
         if f[2] is None:
-            return self._clone(l[2])
-        return self._mk("Bin", line, op="-", lhs=self._clone(l[2]), rhs=self._clone(f[2]), t=T)
+            return hi
+        return self._mk("Bin", line, op="-", lhs=hi, rhs=self._clone(f[2]), t=T)
 
     def _elem(self, fn, pos, idx, line, T):
         kind, base, off, cls = pos
@@ -589,7 +887,7 @@ class Normaliser:
             cnt = self._count(fn, args[0], args[1], line, T)
             if src is None or dst is None or cnt is None or src[0] == "adj" or render(strip(src[1])) != render(strip(dst[1])) or src[2] is not None or dst[2] is not None:
                 return None
-            cnt1 = self._mk("Bin", line, op="-", lhs=cnt, rhs=self._mk("Int", line, v="1", t=T), t=T)
+            cnt1 = self._mk("Bin", line, op="-", lhs=cnt, rhs=self._mk("Int", line, v="1", t=T), t=T, synthetic=True)
 
             def body(var):
                 nxt = self._mk("Bin", line, op="+", lhs=self._ref(var, line), rhs=self._mk("Int", line, v="1", t=T), t=T)
@@ -598,10 +896,11 @@ class Normaliser:
             return [self._index_loop(fn, line, cnt1, body)]
         if k == "Call" and callee == "std::swap" and len(args) == 2:
             a, b = strip(args[0]), strip(args[1])
-            ta = a.get("t")
-            tya = (fn.ntype(a) or "").replace("const ", "").replace("&", "").strip()
-            if ta is None or not tya or "std::" in tya or ("FEAT::" in tya and tya != "FEAT::Index") or "<" in tya:
+            pts = e.get("pt") or []
+            tya = ((fn.type(pts[0]) if pts else fn.ntype(a)) or "").replace("const ", "").replace("&", "").strip()
+            if not tya or "<" in tya or ("::" in tya and tya not in ("FEAT::Index", "std::size_t", "std::uint64_t")):
                 return None           # only scalars / array elements (class-type swaps are moves of whole objects)
+            ta = self._tid(fn, tya)
             tmp = {"k": "Var", "i": self._nid(), "l": line, "n": "_t", "d": _fresh_decl(), "t": ta, "init": self._clone(a), "synthetic": True}
             self.note(fn, "std::swap at line %s read as the three assignments it stands for" % line)
             return [self._mk("Decl", line, vars=[tmp]),
